@@ -184,7 +184,7 @@ bool nontrivial(const Case &c) {
 
 void explore_histories(Ctx &ctx) {
     int depth = ctx.thorough() ? 200 : 24;
-    rc_explore<Case>(ctx, "c09-histories", ctx.thorough() ? 200000 : 20000, 100, [&]() {
+    rc_explore<Case>(ctx, "c09-histories", ctx.thorough() ? 200000 : 60000, 100, [&]() {
         Case c;
         {   // start counter: 1, or k below a byte-carry boundary of the 32-bit little-endian counter (2^32 wraps and triggers the automatic rekey)
             int k = *rc::gen::inRange(1, 5);
